@@ -46,6 +46,13 @@ func genReq(t *rapid.T) reqCase {
 	c.MH = gen.Multihash().Draw(t, "mh")
 	c.CtxID = gen.Bytes(0, 64).Draw(t, "ctx")
 	c.Metadata = gen.Bytes(0, 100).Draw(t, "md")
+	if rapid.IntRange(0, 7).Draw(t, "bigmd") == 0 {
+		// sizes around the advertisement limits (the request format itself has no limit)
+		c.Metadata = gen.BoundaryBytes(256, 1024, 2048, 4096).Draw(t, "mdbig")
+	}
+	if rapid.IntRange(0, 15).Draw(t, "bigctx") == 0 {
+		c.CtxID = gen.BoundaryBytes(64, 128).Draw(t, "ctxbig")
+	}
 	na := rapid.IntRange(0, 4).Draw(t, "naddrs")
 	if c.Kind == "register" && na == 0 {
 		na = 1
@@ -273,7 +280,7 @@ func merge(base, f pbt.Result) pbt.Result {
 
 func TestC18_Requests(t *testing.T) {
 	pbt.Run(t, pbt.Config{Prop: "C18", Unit: "TestC18_Requests",
-		Rule: "ingest and register requests (multihash of mixed functions, context ID 0..64 B, metadata 0..100 B, 0..4 addresses) with the named provider and the signing key drawn independently from a pool of ed25519/secp256k1/ecdsa/rsa keys; alterations: envelope key replaced, payload type / payload / signature byte flipped through the envelope protobuf, raw bit flip, truncation, sealed for another domain with the right payload type, fed to the other reader; oracle: accepted <=> signer = named provider and not semantically altered and right domain/type; accepted requests return the fields they were built from; never a panic. Non-trivial: foreign signer or an alteration; distinct by case.",
+		Rule: "ingest and register requests (multihash of mixed functions, context ID 0..64 B or 63..65 / 127..129 B, metadata 0..100 B or within one byte of 256 / 1024 / 2048 / 4096 B, 0..4 addresses) with the named provider and the signing key drawn independently from a pool of ed25519/secp256k1/ecdsa/rsa keys; alterations: envelope key replaced, payload type / payload / signature byte flipped through the envelope protobuf, raw bit flip, truncation, sealed for another domain with the right payload type, fed to the other reader; oracle: accepted <=> signer = named provider and not semantically altered and right domain/type; accepted requests return the fields they were built from; never a panic. Non-trivial: foreign signer or an alteration; distinct by case.",
 		Assumptions: []string{fmt.Sprintf("a raw bit flip that leaves key, payload type, payload and signature of the parsed envelope unchanged is not an alteration")},
 	}, genReq, runReq)
 }
